@@ -1747,6 +1747,44 @@ class SymEval:
             if all(isinstance(a, int) for a in vals):
                 return range(*vals)
             return Opaque('range-sym', *vals)
+        if q == 'builtins.slice' and 1 <= len(args) <= 3 and not kwargs:
+            vals = []
+            for a in args:
+                if isinstance(a, Rat) and A.is_const(a) and A.const_of(a).denominator == 1:
+                    a = int(A.const_of(a))
+                vals.append(a)
+            if all(a is None or (isinstance(a, int) and not isinstance(a, bool)) for a in vals):
+                return slice(*vals)
+            return Opaque('slice', *vals)
+        if q == 'numpy.diagonal' and args and isinstance(args[0], SArray):
+            m_ = args[0]
+            rank = len(m_.shape) + (1 if m_.sample else 0)
+            ax1 = kwargs.get('axis1', args[2] if len(args) > 2 else 0)
+            ax2 = kwargs.get('axis2', args[3] if len(args) > 3 else 1)
+            off = kwargs.get('offset', args[1] if len(args) > 1 else 0)
+            if not all(isinstance(v_, int) and not isinstance(v_, bool) for v_ in (ax1, ax2, off)):
+                raise Unsupported('numpy.diagonal with symbolic axes')
+            if off != 0 or set(kwargs) - {'axis1', 'axis2', 'offset'}:
+                raise Unsupported('numpy.diagonal offset')
+            for ax in (ax1, ax2):
+                if not -rank <= ax < rank:
+                    raise RuntimeFailure('numpy.diagonal: axis %d is out of bounds for an array of '
+                                         'dimension %d' % (ax, rank))
+            ax1, ax2 = ax1 % rank, ax2 % rank
+            if ax1 == ax2:
+                raise RuntimeFailure('numpy.diagonal: axis1 and axis2 cannot be the same')
+            lead = 1 if m_.sample else 0
+            if len(m_.shape) == 2 and {ax1, ax2} == {lead, lead + 1}:
+                if m_.shape[0] != m_.shape[1]:
+                    k_ = min(m_.shape)
+                else:
+                    k_ = m_.shape[0]
+                out = SArray((k_,), {}, None, m_.sample)
+                for i_ in range(k_):
+                    out.entries[(i_,)] = m_.get((i_, i_))
+                return out
+            raise Unsupported('numpy.diagonal over axes (%d, %d) of a rank-%d array'
+                              % (ax1, ax2, rank))
         if q == 'builtins.zip' and args and not kwargs:
             seqs = []
             for a in args:
